@@ -227,7 +227,9 @@ class SetEncoder(encoder.SequenceEncoder):
                     continue
 
                 compsMap[id(component)] = namedType
-                comps.append((component, asn1Spec[idx]))
+                # not `asn1Spec[idx]`: that instantiates the component on
+                # the schema object itself
+                comps.append((component, namedType.asn1Object))
 
         for comp, compType in sorted(comps, key=self._componentSortKey):
             namedType = compsMap[id(comp)]
